@@ -41,6 +41,12 @@ type thr struct {
 	ptr      *model.EndpointShards // what the goroutine looked up (read at the gate)
 	finished bool
 	orphan   bool // its write landed on a shard set that was no longer linked
+	// what happened to the entry the goroutine looked up while it was parked between lookup and lock: it left
+	// the index (entryGone) during a delete (goneByDelete: F4's window) or during something that is not a delete
+	// (the entry was replaced: a different defect)
+	entryGone      bool
+	goneByDelete   bool
+	orphanNoUnlink bool
 	hid      int  // index of its operation in hist
 	at       string // the gate it is parked at
 	goid     atomic.Uint64
@@ -62,6 +68,7 @@ type schedSUT struct {
 	threads map[string]*thr
 	order   []*thr
 	unlinks int
+	totalUnlinks atomic.Int64
 	hist    []histOp
 	line    int
 	lost    int
@@ -160,6 +167,7 @@ func newSchedSUT() *schedSUT {
 		switch point {
 		case "delete:before-unlink":
 			s.unlinks++
+			s.totalUnlinks.Add(1)
 			if t != nil && t.isDelete {
 				t.at = point
 				t.parked <- struct{}{}
@@ -172,6 +180,7 @@ func newSchedSUT() *schedSUT {
 			t.at = point
 			if point == "update:after-lookup" {
 				t.ptr, _ = s.idx.ShardsForService(t.o.k.a, t.o.k.b)
+				t.entryGone, t.goneByDelete = false, false
 			}
 			t.parked <- struct{}{}
 			<-t.release
@@ -199,6 +208,7 @@ func (s *schedSUT) wait(t *thr) string {
 		}
 		if t.orphan {
 			s.lost++
+			t.orphanNoUnlink = !(t.entryGone && t.goneByDelete)
 			return "done orphan"
 		}
 		return "done " + p
@@ -253,8 +263,42 @@ func (s *schedSUT) finishAll() {
 			if s.stepThread(t) == "timeout" {
 				s.dead = true
 			}
+			s.noteEntryChanges(false)
 		}
 	}
+}
+
+// noteEntryChanges looks, after a scheduling step, at every goroutine parked between its lookup and its lock:
+// is the entry it holds still the one in the index?  byDelete: the step was a delete (DeleteServiceShard without
+// preserved keys, DeleteShard, PruneShard - by the scheduler or a delete goroutine).
+func (s *schedSUT) noteEntryChanges(byDelete bool) {
+	if s.inflight != nil || s.dead {
+		return // a delete holds the index lock; it is looked at when it has finished
+	}
+	for _, t := range s.order {
+		if t.finished || t.isDelete || t.ptr == nil || t.at != "update:after-lookup" || t.entryGone {
+			continue
+		}
+		if cur, ok := s.idx.ShardsForService(t.o.k.a, t.o.k.b); !ok || cur != t.ptr {
+			t.entryGone, t.goneByDelete = true, byDelete
+		}
+	}
+}
+
+func (s *schedSUT) lineIsDelete(f []string) bool {
+	switch f[0] {
+	case "delshard", "prune", "dbegin":
+		return true
+	case "delsvc":
+		return len(f) == 4 && !(f[3] == "1" || f[3] == "true")
+	case "step":
+		if len(f) < 2 {
+			return false
+		}
+		t := s.threads[f[1]]
+		return t != nil && t.isDelete
+	}
+	return false
 }
 
 // afterDelete waits for the delete goroutine to park at its next unlink or to finish.
@@ -339,6 +383,9 @@ func (s *schedSUT) apply(f []string) (out string) {
 		if strings.HasPrefix(out, "timeout") {
 			s.dead = true // some goroutine hangs: the rest of the case is not worth waiting for
 		}
+		if f[0] != "end" {
+			s.noteEntryChanges(s.lineIsDelete(f))
+		}
 	}()
 	if s.dead {
 		return "timeout"
@@ -422,6 +469,7 @@ func (s *schedSUT) apply(f []string) (out string) {
 		return s.out(s.stepThread(t))
 	case f[0] == "end" && len(f) == 1:
 		s.finishDelete()
+		s.noteEntryChanges(true)
 		s.finishAll()
 		final := showIndex(s.idx)
 		u := s.unlinks
@@ -492,6 +540,7 @@ func (s *schedSUT) linearizable(final string, skip map[int]bool) bool {
 func (s *schedSUT) close() {
 	if !s.dead {
 		s.finishDelete()
+		s.noteEntryChanges(true)
 		s.finishAll()
 	}
 	model.VerifC13SetGate(nil)
@@ -711,14 +760,22 @@ func oracleSched(in, outp string) {
 			return
 		}
 		s.finishDelete()
+		s.noteEntryChanges(true)
 		s.finishAll()
 		final := showIndex(s.idx)
 		got, _ := snapshotIndex(s.idx)
 		v := "OK"
 		lostOrphans := map[int]bool{}
+		// the class of a lost update: F4 = an unlink ran inside the update's lookup->lock window; an orphan write
+		// without any unlink in its window is a different defect (the entry was replaced by a non-delete)
+		lostClause := "lost-update:unlink-inside-update-window"
 		for _, t := range s.order {
 			if t.orphan {
 				lostOrphans[t.hid] = true
+				stats["orphan-writes"]++
+				if t.orphanNoUnlink {
+					lostClause = "lost-update:entry-replaced-without-unlink"
+				}
 			}
 			if !t.finished {
 				v = "FAIL never-crashes goroutine-" + t.name + "-did-not-finish"
@@ -757,7 +814,7 @@ func oracleSched(in, outp string) {
 				}
 				if strings.Join(got[h.o.k][h.o.sk], ";") != strings.Join(want, ";") {
 					if s.lost > 0 && s.linearizable(final, lostOrphans) {
-						v = "FAIL lost-update:unlink-inside-update-window " + wire.Enc(h.o.k.enc()+" "+h.o.sk.enc())
+						v = "FAIL " + lostClause + " " + wire.Enc(h.o.k.enc()+" "+h.o.sk.enc())
 					} else {
 						v = "FAIL report-lost " + wire.Enc(h.o.k.enc()+" "+h.o.sk.enc())
 					}
@@ -767,7 +824,7 @@ func oracleSched(in, outp string) {
 		}
 		if v == "OK" && !s.linearizable(final, nil) {
 			if s.lost > 0 && s.linearizable(final, lostOrphans) {
-				v = "FAIL lost-update:unlink-inside-update-window"
+				v = "FAIL " + lostClause
 			} else {
 				v = "FAIL non-linearizable " + wire.Enc(final)
 			}
@@ -789,6 +846,18 @@ func oracleSched(in, outp string) {
 			continue // finish() does it
 		}
 		r := s.apply(f)
+		switch {
+		case strings.HasPrefix(r, "parked retry"):
+			stats["update-retries-after-unlink"]++
+		case strings.HasPrefix(r, "parked miss"):
+			stats["parks-after-lookup-miss"]++
+		case strings.HasPrefix(r, "parked"):
+			stats["parks-after-lookup"]++
+		case strings.HasPrefix(r, "blocked"):
+			stats["updates-blocked-behind-delete"]++
+		case strings.HasPrefix(r, "dparked"):
+			stats["delete-parks-at-unlink"]++
+		}
 		if verdict == "" && (strings.HasPrefix(r, "crash") || strings.HasPrefix(r, "timeout") || strings.HasPrefix(r, "done crash")) {
 			verdict = "FAIL never-crashes line=" + strconv.Itoa(s.line)
 		}
